@@ -388,9 +388,19 @@ func determStream(r *Run) {
 			kfs = append(kfs, Field{strings.Repeat("k", 1+j%3) + fmt.Sprint(j), VInt(0, int64(j))})
 		}
 		sort.Slice(kfs, func(a, b int) bool { return kfs[a].Name < kfs[b].Name }) // codec convention: fields of a keyed map sorted
-		maps := []*V{VKeyed(kfs...), big(4, 1<<60, 8), big(4, -(1 << 60), 8), big(0, 1<<53, 6), big(4, (1<<62)-4, 8), big(9, 1<<62, 8), big(3, 1<<30, 5), big(4, -3, 7), VStrMap(skvs...)}
+		// nested maps (string keys inside integer keys inside string keys), for the JSON printers
+		var nkvs [][2]*V
+		for j := 0; j < 12; j++ {
+			var inner [][2]*V
+			for l := 0; l < 5; l++ {
+				inner = append(inner, KV(VInt(0, int64(10*l-20+j)), VStrMap(SKV("z"+fmt.Sprint(l), VInt(0, int64(l))), SKV("a", VAnys(VStrMap(SKV("y", VNil()), SKV("x", VStr("<"))))), SKV("B", VFlt(1, 0.5)))))
+			}
+			nkvs = append(nkvs, SKV(strings.Repeat("n", 1+j%4)+fmt.Sprint(11-j), VMap(TInt(0), TAny, inner...)))
+		}
+		maps := []*V{VKeyed(kfs...), big(4, 1<<60, 8), big(4, -(1 << 60), 8), big(0, 1<<53, 6), big(4, (1<<62)-4, 8), big(9, 1<<62, 8), big(3, 1<<30, 5), big(4, -3, 7), VStrMap(skvs...), VStrMap(nkvs...)}
 		tmpls := []string{"{% for kv in m %}{{ kv }};{% endfor %}", "{% for kv in m %}{{ kv[1] }}{% endfor %}", "{{ m | join: '' }}", "{{ m | first }}{{ m | last }}", "{% tablerow kv in m cols:3 %}{{ kv[1] }}{% endtablerow %}",
-			"{{ m | sort | join: ',' }}", "{{ m | reverse | join: ',' }}", "{% for kv in m reversed limit:3 offset:1 %}{{ kv[0] }};{% endfor %}", "{{ m | uniq | size }}{{ m | map: 'x' | size }}"}
+			"{{ m | sort | join: ',' }}", "{{ m | reverse | join: ',' }}", "{% for kv in m reversed limit:3 offset:1 %}{{ kv[0] }};{% endfor %}", "{{ m | uniq | size }}{{ m | map: 'x' | size }}",
+			"{{ m | json }}", "{{ m | inspect }}|{{ m | type }}", "{% for kv in m %}{{ kv | json }}{% endfor %}{{ m | first | inspect }}"}
 		for _, m := range maps {
 			for _, src := range tmpls {
 				if !r.Mine() {
